@@ -476,37 +476,27 @@ theorem specToObj_eq (w : PWorld) (t : Oid) (ht : t < w.objs.length) : ∀ (f : 
         rw [← hsplit] at this
         rw [this]
 
-/-! ## Part 2: what `_watch_group` installs for one spec with a simple chain -/
+/-! ## Part 2: what one path spec needs, by a walk from the root -/
 
-/-- the observable shape of an installed watcher (ids and the `attribute` kept inside the callback
-are not observable) -/
-structure Shape where
+/-- what ONE spec asks of the watcher on one of its holders: the parameter, the sub-path to compare
+(`none`: a leaf, never skip), whether the parent must be notified -/
+structure SShape where
   on : Oid
   params : List Name
   changed : Option (List (List Name))
   cb : Bool
   deriving Repr, DecidableEq
 
-def shapeOf (x : DW) : Shape := ⟨x.on, x.params, x.changed, x.callback.isSome⟩
-
 /-- the watchers one path spec needs, by a walk from `cur` at depth `depth`: an intermediate holder
 gets the remaining path as filter and (below the root) the rebinding callback; the last object gets
 the leaf, no filter, no callback -/
-def builtFrom (w : PWorld) : Oid → Nat → List Name → Name → List Shape
+def builtFrom (w : PWorld) : Oid → Nat → List Name → Name → List SShape
   | cur, _, [], leaf => [⟨cur, [leaf], none, false⟩]
   | cur, depth, n :: rest, leaf =>
     ⟨cur, [n], some [rest ++ [leaf]], decide (0 < depth)⟩ ::
       (match getParam w cur n with
        | some (.ref o) => builtFrom w o (depth + 1) rest leaf
        | _ => [])
-
-def built (w : PWorld) (t : Oid) (s : PathSpec) : List Shape :=
-  match s.path with
-  | [] => []
-  | n :: _ =>
-    match getParam w t n with
-    | some (.ref _) => builtFrom w t 0 s.path s.leaf
-    | _ => []
 
 theorem builtFrom_congr {w w' : PWorld} (h : SameGraph w w') : ∀ (p : List Name) (cur : Oid) (d : Nat) (leaf : Name),
     builtFrom w' cur d p leaf = builtFrom w cur d p leaf := by
@@ -517,13 +507,6 @@ theorem builtFrom_congr {w w' : PWorld} (h : SameGraph w w') : ∀ (p : List Nam
     intro cur d leaf
     simp only [builtFrom, getParam_congr h]
     split <;> simp [ih]
-
-theorem built_congr {w w' : PWorld} (h : SameGraph w w') (t : Oid) (s : PathSpec) : built w' t s = built w t s := by
-  unfold built
-  split
-  · rfl
-  · simp only [getParam_congr h]
-    split <;> simp [builtFrom_congr h]
 
 theorem builtFrom_deps (w : PWorld) : ∀ (p : List Name) (cur : Oid) (d : Nat) (leaf : Name),
     (builtFrom w cur d p leaf).map (fun sh => (sh.on, sh.params)) = (depsFrom w cur p leaf).map (fun x => (x.1, [x.2])) := by
@@ -640,336 +623,5 @@ theorem rdd_gen (w : PWorld) (attrib : Option Name) (leaf : Name) : ∀ (rest : 
         rw [show pre ++ Val.ref cur :: chain w (Val.ref o) rest' = (pre ++ [Val.ref cur]) ++ chain w (Val.ref o) rest' by simp,
           show prePath ++ n :: rest' ++ [leaf] = (prePath ++ [n]) ++ rest' ++ [leaf] by simp]
         exact this
-
-/-! ### grouping: dependencies on distinct objects form singleton groups -/
-
-theorem addToGroups_new (s : PathSpec) (o : Oid) (n : Name) : ∀ (acc : List Group), o ∉ acc.map (·.1) →
-    addToGroups acc s (o, n) = acc ++ [(o, [(s, n)])] := by
-  intro acc
-  induction acc with
-  | nil => intro _; rfl
-  | cons g rest ih =>
-    intro h
-    obtain ⟨k, l⟩ := g
-    simp only [List.map_cons, List.mem_cons, not_or] at h
-    have : ¬ k = o := fun e => h.1 e.symm
-    simp [addToGroups, this, ih h.2]
-
-theorem foldl_addToGroups (s : PathSpec) : ∀ (deps : List (Oid × Name)) (acc : List Group),
-    (deps.map (·.1)).Nodup → (∀ d ∈ deps, d.1 ∉ acc.map (·.1)) →
-    deps.foldl (fun acc d => addToGroups acc s d) acc = acc ++ deps.map (fun d => (d.1, [(s, d.2)])) := by
-  intro deps
-  induction deps with
-  | nil => intro acc _ _; simp
-  | cons d rest ih =>
-    intro acc hn hacc
-    obtain ⟨o, n⟩ := d
-    simp only [List.map_cons, List.nodup_cons] at hn
-    simp only [List.foldl_cons]
-    rw [addToGroups_new s o n acc (hacc (o, n) (by simp))]
-    rw [ih _ hn.2 (by
-      intro d hd hin
-      simp only [List.map_append, List.map_cons, List.map_nil, List.mem_append, List.mem_singleton] at hin
-      rcases hin with h1 | h1
-      · exact hacc d (List.mem_cons_of_mem _ hd) h1
-      · exact hn.1 (h1 ▸ List.mem_map.2 ⟨d, hd, rfl⟩))]
-    simp
-
-/-! ### `_watch_group` over singleton groups -/
-
-/-- the watchers installed for singleton groups, with their filters/callbacks -/
-def mkWatchers (t : Oid) (m : Name) : Nat → List (Oid × Name) → List (Option (List (List Name)) × Option (Option Name)) → List DW
-  | next, d :: ds, r :: rs => ⟨next, d.1, [d.2], t, m, r.1, r.2⟩ :: mkWatchers t m (next + 1) ds rs
-  | _, _, _ => []
-
-theorem dynGet_dynAppend (d : List ((Oid × Name) × List Nat)) (k : Oid × Name) (i : Nat) :
-    dynGet (dynAppend d k i) k = dynGet d k ++ [i] ∧
-    (∀ e ∈ dynAppend d k i, e.1 = k ∨ ∃ e' ∈ d, e'.1 = e.1) := by
-  induction d with
-  | nil => simp [dynAppend, dynGet]
-  | cons e rest ih =>
-    obtain ⟨k', l⟩ := e
-    by_cases hk : k' = k
-    · subst hk
-      refine ⟨by simp [dynAppend, dynGet], ?_⟩
-      intro e he
-      simp only [dynAppend, if_true, List.mem_cons] at he
-      rcases he with rfl | he
-      · exact Or.inl rfl
-      · exact Or.inr ⟨e, List.mem_cons_of_mem _ he, rfl⟩
-    · have hk' : ¬ k = k' := fun e => hk e.symm
-      simp only [dynAppend, hk, if_false]
-      constructor
-      · have := ih.1
-        simp only [dynGet, List.find?_cons, hk, decide_false] at this ⊢
-        exact this
-      · intro e he
-        rcases List.mem_cons.1 he with rfl | he'
-        · exact Or.inr ⟨(k', l), by simp, rfl⟩
-        · rcases ih.2 e he' with h1 | ⟨e', h1, h2⟩
-          · exact Or.inl h1
-          · exact Or.inr ⟨e', List.mem_cons_of_mem _ h1, h2⟩
-
-theorem watchGroups_singletons (w : PWorld) (t : Oid) (m : Name) (attrib : Option Name) (s : PathSpec) :
-    ∀ (deps : List (Oid × Name)) (res : List (Option (List (List Name)) × Option (Option Name))) (w0 : PWorld),
-    SameGraph w w0 → deps.map (fun d => resolveDynamicDeps w t s d.1 attrib) = res.map Except.ok →
-    (∀ e ∈ w0.dyn, e.1 = (t, m)) →
-    ∃ w', watchGroups w0 t m attrib (deps.map (fun d => (d.1, [(s, d.2)]))) = .ok w' ∧ SameGraph w w' ∧ w'.log = w0.log ∧
-      w'.watchers = w0.watchers ++ mkWatchers t m w0.nextId deps res ∧
-      dynGet w'.dyn (t, m) = dynGet w0.dyn (t, m) ++ (mkWatchers t m w0.nextId deps res).map (·.id) ∧
-      (∀ e ∈ w'.dyn, e.1 = (t, m)) := by
-  intro deps
-  induction deps with
-  | nil =>
-    intro res w0 hg _ hd
-    exact ⟨w0, rfl, hg, rfl, by simp [mkWatchers], by simp [mkWatchers], hd⟩
-  | cons d rest ih =>
-    intro res w0 hg hres hd
-    cases res with
-    | nil => simp at hres
-    | cons r rs =>
-      simp only [List.map_cons, List.cons.injEq] at hres
-      obtain ⟨hr, hrs⟩ := hres
-      simp only [List.map_cons, watchGroups, watchGroup]
-      have hrdd : resolveDynamicDeps w0 t s d.1 attrib = .ok r := by
-        rw [← hr]
-        unfold resolveDynamicDeps
-        simp only [chain_congr hg, classOf_congr hg]
-      rw [hrdd]
-      simp only [dedupNames, List.map_nil, List.not_mem_nil, if_false, List.nil_append]
-      have hd1 := dynGet_dynAppend w0.dyn (t, m) w0.nextId
-      obtain ⟨w', h1, h2, h3, h4, h5, h6⟩ := ih rs
-        { w0 with watchers := w0.watchers ++ [⟨w0.nextId, d.1, [d.2], t, m, r.1, r.2⟩], nextId := w0.nextId + 1,
-                  dyn := dynAppend w0.dyn (t, m) w0.nextId }
-        ⟨hg.1, hg.2⟩ hrs (by
-          intro e he
-          rcases hd1.2 e he with h | ⟨e', he', h⟩
-          · exact h
-          · rw [← h]; exact hd e' he')
-      refine ⟨w', h1, h2, h3, ?_, ?_, h6⟩
-      · rw [h4]; simp [mkWatchers]
-      · rw [h5, hd1.1]; simp [mkWatchers]
-
-theorem mkWatchers_shapes (t : Oid) (m : Name) : ∀ (deps : List (Oid × Name))
-    (res : List (Option (List (List Name)) × Option (Option Name))) (next : Nat), deps.length = res.length →
-    (mkWatchers t m next deps res).map shapeOf =
-      (deps.zip res).map (fun dr => ⟨dr.1.1, [dr.1.2], dr.2.1, dr.2.2.isSome⟩) ∧
-    (mkWatchers t m next deps res).map (·.id) = List.range' next deps.length ∧
-    (∀ x ∈ mkWatchers t m next deps res, x.owner = t ∧ x.method = m ∧ (∃ n, x.params = [n]) ∧
-      x.callback ∈ res.map (·.2)) := by
-  intro deps
-  induction deps with
-  | nil => intro res next _; simp [mkWatchers]
-  | cons d rest ih =>
-    intro res next hl
-    cases res with
-    | nil => simp at hl
-    | cons r rs =>
-      obtain ⟨h1, h2, h3⟩ := ih rs (next + 1) (by simpa using hl)
-      refine ⟨by simp [mkWatchers, shapeOf, h1], by simp [mkWatchers, h2, List.range'_succ], ?_⟩
-      intro x hx
-      simp only [mkWatchers, List.mem_cons] at hx
-      rcases hx with rfl | hx
-      · exact ⟨rfl, rfl, ⟨d.2, rfl⟩, by simp⟩
-      · obtain ⟨a, b, c, e⟩ := h3 x hx
-        exact ⟨a, b, c, by simp only [List.map_cons, List.mem_cons]; exact Or.inr e⟩
-
-/-! ## Part 3: `_update_deps` rebuilds exactly the watchers the current graph needs -/
-
-/-- scope of the C07 theorems: `t` is the only object whose class has dependent methods, that class
-has the single method `m` with the single path spec `s` whose leaf is an ordinary Parameter, every
-object has the parameters the spec names, path parameters hold `None` or an existing object -/
-structure Scope (w : PWorld) (t : Oid) (m : Name) (s : PathSpec) : Prop where
-  tcls : ∃ ct, classOf w t = some ct ∧ ct.methods = [⟨m, [s]⟩]
-  others : ∀ o c, o ≠ t → classOf w o = some c → c.methods = []
-  leaf : s.leaf ≠ "param"
-  path : s.path ≠ []
-  names : ∀ n ∈ s.path, HasName w n ∧ ObjName w n ∧ n ≠ "param"
-  hasLeaf : HasName w s.leaf
-
-theorem HasName.congr {w w' : PWorld} (h : SameGraph w w') {n : Name} (hn : HasName w n) : HasName w' n := by
-  intro o ho
-  rw [getParam_congr h]
-  exact hn o (by rw [← h.1]; exact ho)
-
-theorem ObjName.congr {w w' : PWorld} (h : SameGraph w w') {n : Name} (hn : ObjName w n) : ObjName w' n := by
-  intro o v hv
-  rw [getParam_congr h] at hv
-  rcases hn o v hv with h1 | ⟨o', h1, h2⟩
-  · exact Or.inl h1
-  · exact Or.inr ⟨o', h1, by rw [h.1]; exact h2⟩
-
-theorem Scope.congr {w w' : PWorld} {t : Oid} {m : Name} {s : PathSpec} (h : SameGraph w w') (hs : Scope w t m s) :
-    Scope w' t m s :=
-  ⟨by simpa [classOf_congr h] using hs.tcls, fun o c ho hc => hs.others o c ho (by rw [← classOf_congr h]; exact hc),
-   hs.leaf, hs.path, fun n hn => ⟨(hs.names n hn).1.congr h, (hs.names n hn).2.1.congr h, (hs.names n hn).2.2⟩,
-   hs.hasLeaf.congr h⟩
-
-/-- the watchers of `t.m` are exactly those the current graph needs, all recorded in `dynamic_watchers` -/
-structure Installed (w : PWorld) (t : Oid) (m : Name) (s : PathSpec) : Prop where
-  shapes : w.watchers.map shapeOf = built w t s
-  owned : ∀ x ∈ w.watchers, x.owner = t ∧ x.method = m ∧ x.id ∈ dynGet w.dyn (t, m)
-  cbs : ∀ x ∈ w.watchers, ∀ a, x.callback = some a → a = none ∨ a = some s.root
-  dynKeys : ∀ e ∈ w.dyn, e.1 = (t, m)
-
-theorem zip_rebuild : ∀ (B : List Shape) (D : List (Oid × Name)) (R : List (Option (List (List Name)) × Option (Option Name)))
-    (a : Option Name),
-    D.map (fun d => (d.1, [d.2])) = B.map (fun sh => (sh.on, sh.params)) →
-    R = B.map (fun sh => (sh.changed, if sh.cb then some a else none)) →
-    (D.zip R).map (fun dr => (⟨dr.1.1, [dr.1.2], dr.2.1, dr.2.2.isSome⟩ : Shape)) = B := by
-  intro B
-  induction B with
-  | nil => intro D R a hd hr; subst hr; simp
-  | cons b rest ih =>
-    intro D R a hd hr
-    cases D with
-    | nil => simp at hd
-    | cons d ds =>
-      subst hr
-      simp only [List.map_cons, List.cons.injEq, Prod.mk.injEq] at hd
-      obtain ⟨⟨h1, h2⟩, h3⟩ := hd
-      simp only [List.map_cons, List.zip_cons_cons, List.cons.injEq]
-      refine ⟨?_, ih ds _ a h3 rfl⟩
-      cases b
-      simp_all
-      split <;> simp_all
-
-theorem classOf_lt {w : PWorld} {t : Oid} {c : PClass} (h : classOf w t = some c) : t < w.objs.length := by
-  unfold classOf at h
-  rcases Nat.lt_or_ge t w.objs.length with h1 | h1
-  · exact h1
-  · rw [List.getElem?_eq_none h1] at h; cases h
-
-/-- **the rebuild**: with every installed watcher recorded in `dynamic_watchers[m]`, an
-`_update_deps(attribute)` that applies (`attribute` is `None` or the root of the spec) removes them all
-and installs exactly the watchers the current graph needs -/
-theorem rebuild_gen (w : PWorld) (t : Oid) (m : Name) (s : PathSpec) (attrib : Option Name) (init : Bool)
-    (hs : Scope w t m s) (hsimple : (chainObjsFrom w t s.path).Nodup)
-    (hown : ∀ x ∈ w.watchers, x.id ∈ dynGet w.dyn (t, m)) (hkeys : ∀ e ∈ w.dyn, e.1 = (t, m))
-    (hattr : attrib = none ∨ attrib = some s.root) (hinit : init = true → w.watchers = [] ∧ w.dyn = []) :
-    ∃ w', updateDeps w t attrib init = .ok w' ∧ SameGraph w w' ∧ w'.log = w.log ∧ Installed w' t m s := by
-  obtain ⟨ct, hct, hm⟩ := hs.tcls
-  have htl : t < w.objs.length := classOf_lt hct
-  -- the state after `dynamic_watchers.pop(method)` and the `unwatch` loop
-  have hfilter : ([s].filter (fun s' => match attrib with | none => true | some a => s'.root = a)) = [s] := by
-    rcases hattr with rfl | rfl <;> simp
-  have hw1 : ({ w with watchers := w.watchers.filter (fun x => !((dynGet w.dyn (t, m)).contains x.id)),
-                       dyn := w.dyn.filter (fun e => e.1 ≠ (t, m)) } : PWorld) =
-             { w with watchers := [], dyn := [] } := by
-    have h1 : w.watchers.filter (fun x => !((dynGet w.dyn (t, m)).contains x.id)) = [] := by
-      rw [List.filter_eq_nil_iff]
-      intro x hx
-      simp [hown x hx]
-    have h2 : w.dyn.filter (fun e => e.1 ≠ (t, m)) = [] := by
-      rw [List.filter_eq_nil_iff]
-      intro e he
-      simp [hkeys e he]
-    rw [h1, h2]
-  generalize hw1def : ({ w with watchers := [], dyn := [] } : PWorld) = w1 at hw1
-  have hg1 : SameGraph w w1 := by subst hw1def; exact ⟨rfl, rfl⟩
-  have hs1 : Scope w1 t m s := hs.congr hg1
-  have hdeps : specToObj w1 t (s.path.length + 1) s.path s.leaf = .ok (depsRoot w1 t s.path s.leaf) :=
-    specToObj_eq w1 t (by rw [hg1.1]; exact htl) _ s.path s.leaf (Nat.lt_succ_self _) hs1.names hs1.hasLeaf hs1.leaf
-  have hsimple1 : (chainObjsFrom w1 t s.path).Nodup := by rw [chainObjsFrom_congr hg1]; exact hsimple
-  -- the dependencies sit on pairwise distinct objects
-  have hnd : ((depsRoot w1 t s.path s.leaf).map (·.1)).Nodup := by
-    unfold depsRoot
-    split
-    · simp
-    · split
-      · rw [depsFrom_fst]; exact hsimple1
-      · simp
-  have hgroups : groupSpecs w1 t [] [s] = .ok ((depsRoot w1 t s.path s.leaf).map (fun d => (d.1, [(s, d.2)]))) := by
-    simp only [groupSpecs, hdeps]
-    rw [foldl_addToGroups s _ [] hnd (by simp)]
-    simp
-  -- filters and callbacks
-  let res := (depsRoot w1 t s.path s.leaf).map (fun d => rddCore (chain w1 (.ref t) s.path) s.elems d.1 attrib)
-  have hres : (depsRoot w1 t s.path s.leaf).map (fun d => resolveDynamicDeps w1 t s d.1 attrib) = res.map Except.ok := by
-    simp only [res, List.map_map]
-    apply List.map_congr_left
-    intro d _
-    exact resolveDynamicDeps_core w1 t s d.1 attrib hs1.leaf
-  obtain ⟨w', h1, h2, h3, h4, h5, h6⟩ := watchGroups_singletons w1 t m attrib s _ res w1 (SameGraph.refl _) hres
-    (by subst hw1def; simp)
-  have hlen : (depsRoot w1 t s.path s.leaf).length = res.length := by simp [res]
-  obtain ⟨m1, m2, m3⟩ := mkWatchers_shapes t m (depsRoot w1 t s.path s.leaf) res w1.nextId hlen
-  have hwat1 : w1.watchers = [] := by subst hw1def; rfl
-  have hdyn1 : dynGet w1.dyn (t, m) = [] := by subst hw1def; rfl
-  refine ⟨w', ?_, hg1.trans h2, ?_, ?_⟩
-  · unfold updateDeps
-    rw [hct]
-    simp only [hm, updateEntries, updateEntry]
-    have hf2 : ∀ (f : PathSpec → Bool), f s = true → [s].filter f = [s] := by intro f h; simp [h]
-    rw [hf2 _ (by rcases hattr with rfl | rfl <;> simp)]
-    simp only [List.isEmpty_cons, Bool.and_false, Bool.false_eq_true, if_false]
-    have hw1' : (if init = true then w else
-        { w with watchers := w.watchers.filter (fun x => !((dynGet w.dyn (t, m)).contains x.id)),
-                 dyn := w.dyn.filter (fun e => e.1 ≠ (t, m)) }) = w1 := by
-      cases init with
-      | false => simpa using hw1
-      | true =>
-        obtain ⟨e1, e2⟩ := hinit rfl
-        rw [← hw1def]
-        cases w
-        simp_all
-    rw [hw1', hgroups]
-    simp only [h1]
-  · rw [h3]; subst hw1def; rfl
-  · rw [hwat1, List.nil_append] at h4
-    refine ⟨?_, ?_, ?_, h6⟩
-    · rw [h4, m1, built_congr h2]
-      -- position by position: holder/parameter from the walk, filter/callback from `rdd_gen`
-      obtain ⟨n0, rest0, hpe⟩ := List.exists_cons_of_ne_nil hs.path
-      have hbuilt : built w1 t s = (match getParam w1 t n0 with
-          | some (.ref _) => builtFrom w1 t 0 s.path s.leaf | _ => []) := by
-        simp only [built, hpe]
-      have hroot' : depsRoot w1 t s.path s.leaf = (match getParam w1 t n0 with
-          | some (.ref _) => depsFrom w1 t s.path s.leaf | _ => []) := by
-        simp only [depsRoot, hpe]
-      rw [hbuilt]
-      simp only [res, hroot']
-      cases hroot : getParam w1 t n0 with
-      | none => simp
-      | some v =>
-        cases v with
-        | none => simp
-        | int i => simp
-        | ref o1 =>
-          simp only
-          apply zip_rebuild _ _ _ attrib
-          · exact (builtFrom_deps w1 s.path t 0 s.leaf).symm
-          · have := rdd_gen w1 attrib s.leaf s.path [] [] t rfl (by simp) hsimple1
-            simp only [List.nil_append, List.length_nil] at this
-            exact this
-    · intro x hx
-      rw [h4] at hx
-      obtain ⟨a, b, _, _⟩ := m3 x hx
-      refine ⟨a, b, ?_⟩
-      rw [h5, hdyn1, List.nil_append]
-      exact List.mem_map.2 ⟨x, hx, rfl⟩
-    · intro x hx a ha
-      rw [h4] at hx
-      obtain ⟨_, _, _, hc⟩ := m3 x hx
-      rw [ha] at hc
-      obtain ⟨r, hr, hr2⟩ := List.mem_map.1 hc
-      simp only [res, List.mem_map] at hr
-      obtain ⟨d, _, rfl⟩ := hr
-      unfold rddCore at hr2
-      split at hr2
-      · simp at hr2
-      · simp only at hr2
-        split at hr2
-        · simp only [Option.some.injEq] at hr2
-          subst hr2
-          exact hattr
-        · simp at hr2
-
-theorem rebuild (w : PWorld) (t : Oid) (m : Name) (s : PathSpec) (attrib : Option Name)
-    (hs : Scope w t m s) (hsimple : (chainObjsFrom w t s.path).Nodup)
-    (hown : ∀ x ∈ w.watchers, x.id ∈ dynGet w.dyn (t, m)) (hkeys : ∀ e ∈ w.dyn, e.1 = (t, m))
-    (hattr : attrib = none ∨ attrib = some s.root) :
-    ∃ w', updateDeps w t attrib false = .ok w' ∧ SameGraph w w' ∧ w'.log = w.log ∧ Installed w' t m s :=
-  rebuild_gen w t m s attrib false hs hsimple hown hkeys hattr (fun h => by cases h)
 
 end ParamVerif.Depends
